@@ -92,6 +92,123 @@ func genTokenish(t *rapid.T, label string) string {
 	return genValue(t, label)
 }
 
+// ---- byte strings -----------------------------------------------------------------
+//
+// A Go string (and an HTTP parameter, percent-encoded) is a sequence of BYTES; nothing makes a client send valid UTF-8
+// in `state`, a storage hold valid UTF-8 in a session state or a database driver report its failure in UTF-8. The Case
+// stays JSON-serialisable: a field named in Case.Bytes (ErrSpec.Bytes) holds the LATIN-1 SPELLING of its byte string
+// (one rune U+0000..U+00FF per byte); run() turns it into the byte string before anything is executed.
+
+// byteSeqs: sequences that are not valid UTF-8, one list per reason, plus valid sequences (U+FFFD itself, two- to
+// four-byte characters, NUL) next to which a replacement / transcoding of the invalid ones is visible.
+var byteSeqs = map[string][]string{
+	"lone-continuation": {"\x80", "\xbf", "\x80\x80", "a\x80b", "\xa9"},
+	"overlong":          {"\xc0\x80", "\xc0\xaf", "\xc1\xbf", "\xe0\x80\xaf", "\xf0\x80\x80\xaf", "\xc0\xa2", "\xc0\xbc", "\xe0\x80\xbc"},
+	"truncated":         {"\xc3", "\xe2\x82", "\xf0\x9f\x98", "\xe2", "\xc3x", "\xe2\x82=", "\xf0\x9f\x98&", "\xc3\"", "\xe2\x82\">", "\xf0'"},
+	"surrogate":         {"\xed\xa0\x80", "\xed\xbf\xbf", "\xed\xa0\xbd\xed\xb8\x80", "\xed\xb0\x80"},
+	"beyond":            {"\xf4\x90\x80\x80", "\xf5\x80\x80\x80", "\xf8\x88\x80\x80\x80", "\xfc\x84\x80\x80\x80\x80", "\xfe", "\xff", "\xff\xfe", "\xfe\xff", "\xff\xff\xff\xff"},
+	"latin1":            {"Verbindung schl\xe4gt fehl", "caf\xe9", "\xa3100", "na\xefve", "Stra\xdfe", "\xbfqu\xe9?", "\xe9\xe8\xea", "d\xe9j\xe0 vu", "\xa0", "\xad", "ERREUR: cl\xe9 dupliqu\xe9e"},
+	"valid":             {"\xef\xbf\xbd", "\xc3\xa9", "\xe2\x9c\x93", "\xf0\x9f\x98\x80", "\x00", "\xc2\x80", "\xef\xbb\xbf", "\xc3\xa4"},
+}
+
+var byteSeqKinds = []string{"lone-continuation", "overlong", "truncated", "surrogate", "beyond", "latin1", "latin1", "valid", "random", "random", "piece", "piece"}
+
+// spell: the Latin-1 spelling of a byte string (valid UTF-8, JSON-safe).
+func spell(b string) string {
+	var sb strings.Builder
+	for i := 0; i < len(b); i++ {
+		sb.WriteRune(rune(b[i]))
+	}
+	return sb.String()
+}
+
+// unspell: the byte string a Latin-1 spelling stands for; ok=false when s has a rune above U+00FF.
+func unspell(s string) (string, bool) {
+	b := make([]byte, 0, len(s))
+	for _, r := range s {
+		if r > 0xff {
+			return s, false
+		}
+		b = append(b, byte(r))
+	}
+	return string(b), true
+}
+
+// genByteValue: the Latin-1 spelling of a byte string built from 1..5 pieces: sequences that are not valid UTF-8 (by
+// reason), Latin-1 text, random bytes, and pieces of the character generator above (UTF-8 encoded), so that invalid
+// sequences sit next to delimiters, quotes, percent signs and valid multi-byte characters; sometimes very long.
+func genByteValue(t *rapid.T, label string) string {
+	piece := func(l string) string {
+		k := rapid.SampledFrom(byteSeqKinds).Draw(t, l+"bk")
+		switch k {
+		case "random":
+			return string(rapid.SliceOfN(rapid.Byte(), 1, 12).Draw(t, l+"rb"))
+		case "piece":
+			return genPiece(t, l+"pp")
+		}
+		return rapid.SampledFrom(byteSeqs[k]).Draw(t, l+"bs")
+	}
+	if rapid.IntRange(0, 19).Draw(t, label+"bshape") == 19 {
+		n := rapid.IntRange(200, vkit.Scale(1500, 6000)).Draw(t, label+"blen")
+		unit := piece(label + "bunit")
+		var sb strings.Builder
+		for sb.Len() < n {
+			sb.WriteString(unit)
+		}
+		return spell(sb.String())
+	}
+	n := rapid.IntRange(1, 5).Draw(t, label+"bn")
+	var sb strings.Builder
+	for i := 0; i < n; i++ {
+		sb.WriteString(piece(fmt.Sprintf("%s%d", label, i)))
+	}
+	return spell(sb.String())
+}
+
+// invalidKinds: why s is not valid UTF-8 (one word per kind of ill-formed sequence it contains; empty for valid UTF-8).
+func invalidKinds(s string) []string {
+	set := map[string]bool{}
+	for i := 0; i < len(s); {
+		r, w := utf8.DecodeRuneInString(s[i:])
+		if r != utf8.RuneError || w != 1 {
+			i += w
+			continue
+		}
+		b := s[i]
+		next := byte(0)
+		hasNext := i+1 < len(s)
+		if hasNext {
+			next = s[i+1]
+		}
+		cont := hasNext && next >= 0x80 && next <= 0xbf
+		switch {
+		case b >= 0x80 && b <= 0xbf:
+			set["lone-continuation"] = true
+		case b == 0xc0 || b == 0xc1:
+			set["overlong"] = true
+		case b >= 0xf5:
+			set["never-valid-byte"] = true
+		case !cont:
+			set["truncated"] = true
+		case b == 0xe0 && next < 0xa0, b == 0xf0 && next < 0x90:
+			set["overlong"] = true
+		case b == 0xed && next >= 0xa0:
+			set["surrogate"] = true
+		case b == 0xf4 && next >= 0x90:
+			set["beyond-10ffff"] = true
+		default:
+			set["truncated"] = true
+		}
+		i++
+	}
+	out := make([]string, 0, len(set))
+	for k := range set {
+		out = append(out, k)
+	}
+	sort.Strings(out)
+	return out
+}
+
 // ---- redirect URI generators ------------------------------------------------------
 
 // names the provider itself adds; a registered URI carrying one of them in its own query makes "which value wins"
@@ -368,12 +485,20 @@ func clip(s string) string {
 // parseFormDoc parses the body the way a browser does (golang.org/x/net/html implements the HTML5 algorithm) and
 // compares the tree with the fixed skeleton of an auto-submitting form: html > (head > meta[charset]) + (body[onload] >
 // form[method=post][action] > input[type=hidden][name][value]*), whitespace text only, nothing else.
-func parseFormDoc(body []byte) *formDoc {
+//
+// byteValues: some value of the response is a byte string that is not valid UTF-8. A page that carries such bytes is
+// decoded by the browser first (the UTF-8 decoder turns every ill-formed sequence into U+FFFD and never consumes an
+// ASCII byte with it), then parsed; for all other responses a page that is not valid UTF-8 is a deviation by itself.
+func parseFormDoc(body []byte, byteValues bool) *formDoc {
 	f := &formDoc{inputs: url.Values{}}
+	text := string(body)
 	if !utf8.Valid(body) {
-		f.problems = append(f.problems, "body is not valid UTF-8")
+		if !byteValues {
+			f.problems = append(f.problems, "body is not valid UTF-8")
+		}
+		text = strings.ToValidUTF8(text, "\ufffd")
 	}
-	doc, err := html.Parse(strings.NewReader(string(body)))
+	doc, err := html.Parse(strings.NewReader(text))
 	if err != nil {
 		f.problems = append(f.problems, "html.Parse: "+err.Error())
 		return f
@@ -483,6 +608,9 @@ func charClasses(s string) []string {
 	set := map[string]bool{}
 	if len(s) > 150 {
 		set["long"] = true
+	}
+	if !utf8.ValidString(s) {
+		set["invalid-utf8"] = true
 	}
 	for _, r := range s {
 		switch {
